@@ -1,12 +1,18 @@
 import Proofs.Trace
+import Proofs.PtrOkTrace
 /-! C18 — a torn or truncated write history is refused or opens consistent. The model keeps the
     program-ordered write log; `cutOpen` rebuilds both stores from any prefix of it (plus some bytes of a
     torn append) and applies the open-time checks. Proved so far: exactly the torn appends are refused,
     with the library's own error; in-place rewrites cannot be torn; a cut on a write boundary always
     opens. `C18_subset`: every cut of the write log of every history replays to files below the completed history
     in the heap order (per single write: Proofs/Trace*), hence reports only pages and links the completed
-    history reports. Walk safety on cut states (pointers in range, pointee before pointer) is tied by the
-    crash-cut harness and stated in DESIGN §7 C18. -/
+    history reports. `C18_safe`, `C18_safe_walks`: every cut state that opens satisfies the pointer
+    invariant `PtrOk` (every stored pointer, in every block, reachable or not, points inside the complete
+    part of its file; the only incomplete node is the one being written and nothing points to it), hence
+    the strict twins of all walks (every read bounds-checked, a miss = failure) return exactly what the
+    model's walks return: no traversal or query reads outside the files (Proofs/PtrOk*). Crash points
+    inside `clear` (its two truncations) are events of their own: Traph/Crash.lean `Event`, tied by the
+    crash-cut harness; theorems in Proofs/ClearCrash when present. -/
 namespace Traph.Props
 open Traph
 
@@ -80,5 +86,31 @@ theorem C18_log_faithful (cfg : Config) (dflt : Rule) (rules : List (Bytes × Ru
   goodLog_fresh cfg dflt rules
 
 example : (cutOpen {} [.hdr 0, .linkHdr, .trieAppend {}] 2 5) = .error .traph := by simp [cutOpen, openCut, replay, Files.apply, Write.isAppend]
+
+/-! ### "can be traversed and queried without failure" (Proofs/PtrOk*) -/
+
+/-- SAFETY, FOR EVERY CUT OF EVERY HISTORY (block and byte granularity): the cut is refused with the library's own error or opens to a state that satisfies the pointer invariant and is below the completed history. `Op.WF`: link requests name LRUs with at least one stem -/
+theorem C18_safe (cfg : Config) (dflt : Rule) (rules : List (Bytes × Rule)) (ops : List Op)
+    (hop : ∀ op ∈ ops, ∀ d rs, op ≠ .clear d rs) (hwf : ∀ op ∈ ops, op.WF) (ram : State) :
+    let sf := (State.fresh cfg dflt rules []).1.run ops
+    ∀ k j, k ≤ sf.log.length →
+      cutOpen ram sf.log.reverse k j = .error .traph ∨
+      ∃ st, cutOpen ram sf.log.reverse k j = .ok st ∧ PtrOk st ∧ st ⊑ sf :=
+  Traph.C18_safe cfg dflt rules ops hop hwf ram
+
+/-- …and in that state every walk used by the queries (descent, wind-up, the three traversals, in-order pagination, link-list walks, the linear scans) reads only existing blocks: its bounds-checked twin succeeds with the same result -/
+theorem C18_safe_walks (cfg : Config) (dflt : Rule) (rules : List (Bytes × Rule)) (ops : List Op)
+    (hop : ∀ op ∈ ops, ∀ d rs, op ≠ .clear d rs) (hwf : ∀ op ∈ ops, op.WF) (ram : State) :
+    let sf := (State.fresh cfg dflt rules []).1.run ops
+    ∀ k j, k ≤ sf.log.length →
+      cutOpen ram sf.log.reverse k j = .error .traph ∨
+      ∃ st d, cutOpen ram sf.log.reverse k j = .ok st ∧ PtrOkAt st d ∧ WalksSafe st d ∧ st ⊑ sf :=
+  Traph.C18_safe_walks cfg dflt rules ops hop hwf ram
+
+/-- at every request boundary the whole file is complete (no dangling node) -/
+theorem C18_whole_run (cfg : Config) (dflt : Rule) (rules : List (Bytes × Rule)) (ops : List Op)
+    (hop : ∀ op ∈ ops, ∀ d rs, op ≠ .clear d rs) (hwf : ∀ op ∈ ops, op.WF) :
+    Whole ((State.fresh cfg dflt rules []).1.run ops) :=
+  Traph.C18_whole_run cfg dflt rules ops hop hwf
 
 end Traph.Props
